@@ -495,15 +495,16 @@ class CooperativeAwarenessMessage:
         dict
             Position confidence ellipse value.
         """
+        # SemiAxisLength is 0..4095 cm: 4094 means outOfRange, 4095 unavailable.
         position_confidence_ellipse = {
-            "semiMajorAxisLength": int(epx * 100),
-            "semiMinorAxisLength": int(epy * 100),
+            "semiMajorAxisLength": min(int(epx * 100), 4094),
+            "semiMinorAxisLength": min(int(epy * 100), 4094),
             "semiMajorAxisOrientation": 0,
         }
         if epy >= epx:
             position_confidence_ellipse = {
-                "semiMajorAxisLength": int(epy * 100),
-                "semiMinorAxisLength": int(epx * 100),
+                "semiMajorAxisLength": min(int(epy * 100), 4094),
+                "semiMinorAxisLength": min(int(epx * 100), 4094),
                 "semiMajorAxisOrientation": 0,
             }
         return position_confidence_ellipse
@@ -608,7 +609,8 @@ class CooperativeAwarenessMessage:
         """
         heading_confidence = 126
         if epd <= 12.5:
-            heading_confidence = int(epd * 10)
+            # HeadingConfidence is 1..127: 1 means equal to or within 0.1 degree.
+            heading_confidence = max(1, int(epd * 10))
         return heading_confidence
 
     def __str__(self) -> str:
